@@ -35,9 +35,10 @@ def current_lthread():
 
 
 class Point(object):
-    __slots__ = ("kind", "n", "chosen", "tids", "cur_enabled", "info", "key", "cost_before")
+    __slots__ = ("kind", "n", "chosen", "tids", "cur_enabled", "info", "key", "cost_before", "costs")
 
-    def __init__(self, kind, n, chosen, tids, cur_enabled, info, key, cost_before):
+    def __init__(self, kind, n, chosen, tids, cur_enabled, info, key, cost_before, costs=None):
+        self.costs = costs
         self.kind = kind
         self.n = n
         self.chosen = chosen
@@ -64,12 +65,16 @@ class LThread(object):
         self.deadline = None
         self.timed_out = False
         self.block_kind = None
+        self.block_step = -1
+        self.last_point = None
         self.sem = _real_threading.Semaphore(0)
         self.real = None
         self.exc = None
         self.result = None
         self.frame = None         # top frame at the last yield (for state keys)
         self.in_sched = False     # re-entrancy guard for line callbacks
+        self.free = False         # environment thread: switching to/from it is never a preemption
+        self.only_at = None       # env thread: point kinds at which it may be scheduled while local threads are enabled
 
     def __repr__(self):
         return "<LThread %d %s %s>" % (self.id, self.name, self.state)
@@ -98,6 +103,7 @@ class Scheduler(object):
         self.io_points = io_points
         self.record_info = record_info
         self.cost = 0              # preemptions so far
+        self.last_local = None     # last non-free thread that ran
         self.clock_log = []        # (step, old, new) clock advances
         self.on_clock_advance = None
         self._ctl = _real_threading.Semaphore(0)
@@ -106,9 +112,11 @@ class Scheduler(object):
         self.keep_trace = False
 
     # ------------------------------------------------------------------ thread management
-    def spawn(self, fn, name=None, daemon=True):
+    def spawn(self, fn, name=None, daemon=True, free=False, only_at=None):
         tid = len(self.threads)
         t = LThread(self, tid, fn, name or "t%d" % tid, daemon)
+        t.free = free
+        t.only_at = only_at
         self.threads.append(t)
         t.real = _real_threading.Thread(target=self._bootstrap, args=(t,), name="L-" + t.name)
         t.real.daemon = True
@@ -177,7 +185,7 @@ class Scheduler(object):
         self._ctl.release()
 
     # ------------------------------------------------------------------ choice plumbing
-    def _take_choice(self, kind, n, tids, cur_enabled, info):
+    def _take_choice(self, kind, n, tids, cur_enabled, info, costs=None):
         key = None
         if self.state_fn is not None and self.pos >= len(self.prefix):
             key = self.state_fn(self)
@@ -191,12 +199,12 @@ class Scheduler(object):
         else:
             if self.cut_fn is not None and self.cut_fn(key, self.cost, idx):
                 self.points.append(Point(kind, n, -1, tids, cur_enabled,
-                                         info if self.record_info else None, key, self.cost))
+                                         info if self.record_info else None, key, self.cost, costs))
                 return None
             c = 0
         self.pos += 1
         self.points.append(Point(kind, n, c, tids, cur_enabled,
-                                 info if self.record_info else None, key, self.cost))
+                                 info if self.record_info else None, key, self.cost, costs))
         return c
 
     def choose(self, n, kind="env", info=None):
@@ -225,9 +233,15 @@ class Scheduler(object):
             return
         if me.in_sched:
             return
+        if me.only_at is not None:
+            # a restricted environment thread runs each of its steps atomically (between two blocking waits)
+            if self.aborting:
+                raise SimAbort()
+            return
         me.in_sched = True
         try:
             me.frame = sys._getframe(1)
+            me.last_point = (kind, info)
             self._switch(me, kind, info)
         finally:
             me.in_sched = False
@@ -247,13 +261,16 @@ class Scheduler(object):
             me.deadline = deadline
             me.timed_out = False
             me.block_kind = kind
+            me.block_step = self.steps
+            me.last_point = (kind, info)
             self._switch(me, kind, info)
             return not me.timed_out
         finally:
             me.in_sched = was
 
-    def _enabled(self):
+    def _enabled(self, kind=None):
         out = []
+        restricted = False
         for t in self.threads:
             if t.state == "ready":
                 out.append(t)
@@ -262,6 +279,17 @@ class Scheduler(object):
                     out.append(t)
                 elif t.deadline is not None and t.deadline <= self.clock:
                     out.append(t)
+                else:
+                    continue
+            else:
+                continue
+            if t.only_at is not None:
+                restricted = True
+        if restricted:
+            # partial-order reduction for environment threads: their steps commute with every local step
+            # except the ones named in only_at, so they are offered only there (or when nothing else can run)
+            if any(t.only_at is None for t in out):
+                out = [t for t in out if t.only_at is None or t.state != "blocked" or kind in t.only_at]
         return out
 
     def _switch(self, me, kind, info):
@@ -278,7 +306,7 @@ class Scheduler(object):
                 raise SimAbort()
             return
         while True:
-            enabled = self._enabled()
+            enabled = self._enabled(kind)
             if enabled:
                 break
             dls = [t.deadline for t in self.threads if t.state == "blocked" and t.deadline is not None]
@@ -301,20 +329,23 @@ class Scheduler(object):
             self.clock_log.append((self.steps, old, new))
             if self.on_clock_advance is not None:
                 self.on_clock_advance(self, old, new)
-        cur_enabled = me in enabled
+        if not me.free:
+            self.last_local = me
+        ref = self.last_local if me.free else me
+        cur_enabled = ref is not None and ref in enabled
         if cur_enabled:
-            enabled.remove(me)
-            enabled.insert(0, me)
+            enabled.remove(ref)
+            enabled.insert(0, ref)
         if len(enabled) > 1:
-            c = self._take_choice(kind, len(enabled), tuple(t.id for t in enabled), cur_enabled, info)
+            costs = tuple((1 if (cur_enabled and i != 0 and not t.free) else 0) for i, t in enumerate(enabled))
+            c = self._take_choice(kind, len(enabled), tuple(t.id for t in enabled), cur_enabled, info, costs)
             if c is None:
                 self._finish("cut")
                 if me.state != "done":
                     me.sem.acquire()
                     raise SimAbort()
                 return
-            if cur_enabled and c != 0:
-                self.cost += 1
+            self.cost += costs[c]
         else:
             c = 0
         nxt = enabled[c]
